@@ -30,7 +30,10 @@ def lit(typ, v, lang):
         names = {0: "RED", 5: "GREEN", 6: "BLUE"}
         return names[v] if lang != "f" else names[v].lower()
     if lang == "f":
-        return "%d_%s" % (v, {"int": "C_INT", "long": "C_LONG", "size_t": "C_SIZE_T"}[typ])
+        k = {"int": "C_INT", "long": "C_LONG", "size_t": "C_SIZE_T"}[typ]
+        if typ == "int" and v == -2147483648:
+            return "(-2147483647_C_INT - 1_C_INT)"
+        return "%d_%s" % (v, k)
     return "%d%s" % (v, "L" if typ == "long" else "")
 
 
@@ -445,3 +448,129 @@ def parse_protos(od):
                     params.append((mm.group(1).strip(), mm.group(2)))
             protos[m.group(1)] = params
     return protos
+
+
+F_IFACE = '''    interface
+        subroutine eq_begin(name) bind(C, name="eq_begin")
+            use iso_c_binding
+            character(kind=C_CHAR), intent(in) :: name(*)
+        end subroutine
+        subroutine eq_int(x) bind(C, name="eq_int")
+            use iso_c_binding
+            integer(C_LONG), value :: x
+        end subroutine
+        subroutine eq_size(x) bind(C, name="eq_size")
+            use iso_c_binding
+            integer(C_SIZE_T), value :: x
+        end subroutine
+        subroutine eq_bool(x) bind(C, name="eq_bool")
+            use iso_c_binding
+            integer(C_INT), value :: x
+        end subroutine
+        subroutine eq_enum(x) bind(C, name="eq_enum")
+            use iso_c_binding
+            integer(C_INT), value :: x
+        end subroutine
+        subroutine eq_double(x) bind(C, name="eq_double")
+            use iso_c_binding
+            real(C_DOUBLE), value :: x
+        end subroutine
+        subroutine eq_str(s, n) bind(C, name="eq_str")
+            use iso_c_binding
+            character(kind=C_CHAR), intent(in) :: s(*)
+            integer(C_INT), value :: n
+        end subroutine
+        subroutine eq_end() bind(C, name="eq_end")
+        end subroutine
+    end interface
+'''
+FTYPE = {"int": "integer(C_INT)", "long": "integer(C_LONG)", "double": "real(C_DOUBLE)", "float": "real(C_FLOAT)", "size_t": "integer(C_SIZE_T)",
+         "bool": "logical", "Color": "integer(C_INT)"}
+
+
+def f_show(typ, expr):
+    if typ in ("int", "long"):
+        return "call eq_int(int(%s, C_LONG))" % expr
+    if typ == "size_t":
+        return "call eq_size(%s)" % expr
+    if typ in ("double", "float"):
+        return "call eq_double(real(%s, C_DOUBLE))" % expr
+    if typ == "bool":
+        return "call eq_bool(merge(1_C_INT, 0_C_INT, %s))" % expr
+    if typ == "Color":
+        return "call eq_enum(%s)" % expr
+    raise ValueError(typ)
+
+
+def f_driver(lib):
+    """Fortran program using only the generated module eq_mod"""
+    decl = ["    type(thing) :: self"]
+    body = ["    self = thing(100_C_INT)"]
+    for k, f in enumerate(lib["funcs"]):
+        args = []
+        post = []
+        pre = []
+        for p in f.params:
+            n = "v%d_%s" % (k, p.name)
+            if p.shape == "val":
+                args.append(lit(p.typ, p.value, "f"))
+            elif p.shape in ("ptr_in", "ptr_out", "ptr_inout", "ref_inout", "ref_out"):
+                decl.append("    %s :: %s" % (FTYPE[p.typ], n))
+                pre.append("    %s = %s" % (n, lit(p.typ, p.value if p.shape not in ("ptr_out", "ref_out") else 0, "f")))
+                args.append(n)
+                if p.shape != "ptr_in":
+                    post.append("    " + f_show(p.typ, n))
+            elif p.shape in ("str_cref", "cstr_in"):
+                args.append(fstr(p.value))
+            elif p.shape in ("str_inout", "str_out"):
+                decl.append("    character(len=40) :: %s" % n)
+                pre.append("    %s = %s" % (n, fstr(p.value)))
+                args.append(n)
+                post.append("    call eq_str(%s, len_trim(%s, kind=C_INT))" % (n, n))
+            elif p.shape == "arr_in":
+                m = len(p.value)
+                decl.append("    %s :: %s(%d)" % (FTYPE[p.typ], n, m))
+                if m:
+                    pre.append("    %s = [%s]" % (n, ", ".join(lit(p.typ, v, "f") for v in p.value)))
+                args.append(n)
+            elif p.shape in ("obj_cref", "obj_ptr"):
+                decl.append("    type(thing) :: %s" % n)
+                pre.append("    %s = thing(%d_C_INT)" % (n, p.value))
+                args.append(n)
+        call = ("%s(%s)" if f.kind == "function" else "self%%%s(%s)") % (f.name, ", ".join(args))
+        body += pre
+        r = f.result
+        rn = "r%d" % k
+        body.append("    ! call %d" % k)
+        if r == "void":
+            body.append("    call %s" % call)
+            body.append("    call eq_begin(\"%s\"//C_NULL_CHAR)" % f.name)
+        elif r in ("str_val", "str_cref", "cstr"):
+            decl.append("    character(len=:), allocatable :: %s" % rn)
+            body.append("    %s = %s" % (rn, call))
+            body.append("    call eq_begin(\"%s\"//C_NULL_CHAR)" % f.name)
+            body.append("    call eq_str(%s, len(%s, kind=C_INT))" % (rn, rn))
+        else:
+            decl.append("    %s :: %s" % (FTYPE[r], rn))
+            body.append("    %s = %s" % (rn, call))
+            body.append("    call eq_begin(\"%s\"//C_NULL_CHAR)" % f.name)
+            body.append("    " + f_show(r, rn))
+        body += post
+        body.append("    call eq_end()")
+    return "program viaf\n    use iso_c_binding\n    use eq_mod\n    implicit none\n" + F_IFACE + "\n".join(decl) + "\n" + "\n".join(body) + "\nend program viaf\n"
+
+
+def trimmed_copy(lib):
+    """the same library description with character INPUT values right-trimmed: the documented conversion of the Fortran API"""
+    import copy
+    l2 = copy.copy(lib)
+    l2["funcs"] = []
+    for f in lib["funcs"]:
+        ps = []
+        for p in f.params:
+            if p.shape in ("str_cref", "cstr_in", "str_inout"):
+                ps.append(P(p.shape, p.typ, p.name, p.value.rstrip(" ")))
+            else:
+                ps.append(p)
+        l2["funcs"].append(F(f.name, ps, f.result, f.kind, f.rvalue))
+    return l2
